@@ -5,7 +5,7 @@ copy of /repo and run ALL registered quick checks against it; any exit != 0 is a
 import concurrent.futures as cf, json, os, shutil, subprocess, sys, tempfile
 ROOT = "/verif/refactors"
 ids = sys.argv[1:] or sorted(d for d in os.listdir(ROOT) if os.path.isdir(os.path.join(ROOT, d)))
-CHECKS = ["C%02d" % i for i in range(1, 21)]
+CHECKS = os.environ.get("CHECKS", "").split() or ["C%02d" % i for i in range(1, 21)]
 
 def one(rid):
     d = tempfile.mkdtemp(prefix="cij-rf-", dir="/dev/shm")
@@ -29,7 +29,12 @@ with cf.ThreadPoolExecutor(3) as ex:
     res = dict(ex.map(one, ids))
 path = os.path.join(ROOT, "matrix.json")
 old = json.load(open(path)) if os.path.exists(path) else {}
-old.update(res)
+for k, v in res.items():
+    if os.environ.get("CHECKS") and k in old and "alarms" in old[k] and "alarms" in v:
+        merged = {c: a for c, a in old[k]["alarms"].items() if c not in CHECKS}
+        merged.update(v["alarms"])
+        v = {"alarms": merged, "silent": not merged}
+    old[k] = v
 json.dump(old, open(path, "w"), indent=1, sort_keys=True)
 for k in sorted(res):
     print(k, "SILENT" if res[k].get("silent") else json.dumps(res[k])[:600])
